@@ -394,7 +394,7 @@ func (w *World) pxDispatchTag(fn *ssa.Function, t int, boundaries map[*ssa.Funct
 			if sc == nil {
 				return true
 			}
-			if _, bound := st.vals["__tag"]; !bound && !hasParamTag && !(isTagSource(sc) && fr.parent == nil) {
+			if _, bound := st.vals["__tag"]; !bound && !hasParamTag && !(isTagSource(sc) && tagCarrierChain(fr)) {
 				// before the dispatcher has read its tag: readers met here belong to an
 				// earlier part of the production (a class definition before its instance)
 				if _, isB := boundaries[sc]; isB {
@@ -403,7 +403,7 @@ func (w *World) pxDispatchTag(fn *ssa.Function, t int, boundaries map[*ssa.Funct
 				return true
 			}
 			if isTagSource(sc) {
-				if _, bound := st.vals["__tag"]; !bound && !hasParamTag && fr.parent == nil {
+				if _, bound := st.vals["__tag"]; !bound && !hasParamTag && tagCarrierChain(fr) {
 					// bind the octet read here to t, with a nil error
 					reg := px.reg(fr, c)
 					tt := &Term{K: TConst, C: bi(int64(t)), T: types.Typ[types.Uint8], key: fmt.Sprint(t)}
